@@ -26,8 +26,9 @@ ID = 'C03'
 ASSUMPTIONS = c05.ASSUMPTIONS + ['add_redirect runs on the graph state of DESIGN.md section 3 (no self-redirect is ever requested: debug_assert_ne in the function)']
 
 def cubes(tier, has_fc):
-    return [{'asset': a, 'from': 'try_load', 'c03': True} for a in (False, True)] + [{'visit': True, 'response': r, 'c03': True} for r in ('Module', 'External', 'Redirect')] + [{'add_redirect': True, 'N': 3 if tier == 'quick' else 5}, {'jsrmeta': True, 'c03': True}]
+    return [{'asset': a, 'from': 'try_load', 'c03': True} for a in (False, True)] + [{'visit': True, 'response': r, 'c03': True} for r in ('Module', 'External', 'Redirect')] + [{'add_redirect': True, 'N': 3 if tier == 'quick' else 5}, {'jsrmeta': True, 'c03': True}, {'content_load': True, 'c03': True}]
 def cube_name(c):
+    if c.get('content_load'): return 'deferred_content_load'
     if c.get('add_redirect'): return f"add_redirect_N{c['N']}"
     return c05.cube_name(c)
 
@@ -76,6 +77,9 @@ def build_add_redirect(mir, cube):
 
 def build(mir, cube):
     if cube.get('add_redirect'): return build_add_redirect(mir, cube)
+    if cube.get('content_load'):
+        from . import contentload
+        return contentload.build(mir, cube)
     return c05.build(mir, cube)
 
 def differential(mir, seed, count): return c05.differential(mir, seed, count)
